@@ -66,6 +66,7 @@ type qgen struct {
 	inFrag   bool
 	aliasSig map[string]string // (response path of the parent, parent type, alias) -> field signature it stands for
 	path     string            // response path of the selection set being generated
+	force    string            // alias the next field must take (re-selection of an earlier field)
 }
 
 func GenQuery(r *vh.Rng, spec *SchemaSpec, o QOpts) *Query {
@@ -144,7 +145,10 @@ func (g *qgen) field(t *TypeSpec, f *FieldSpec, depth int) *Node {
 		n.Alias = fmt.Sprintf("%s_%d", f.Name, a)
 		sig = ArgKey(f.Name, a)
 	}
-	if !g.inFrag && g.r.Chance(20) {
+	if g.force != "" {
+		n.Alias = g.force
+		g.force = ""
+	} else if !g.inFrag && g.r.Chance(20) {
 		al := []string{"a1", "a2", "zz"}[g.r.Intn(3)]
 		// selections merge only under the same response path: an alias stands for one field there
 		k := g.path + "|" + t.Name + "." + al
@@ -204,11 +208,10 @@ func (g *qgen) set(typ string, depth int) []*Node {
 			prev := out[g.r.Intn(len(out))]
 			if prev.Kind == "field" && prev.Name != "__typename" {
 				f := t.Field(prev.Name)
-				c := g.field(t, f, depth)
 				if !f.Arg {
-					c.Alias = prev.Alias
+					g.force = prev.Alias
 				}
-				out = append(out, c)
+				out = append(out, g.field(t, f, depth))
 			}
 		case k < 76 && depth > 0 && len(out) > 0 && !g.inFrag:
 			// the same composite field once more under another alias: the two response paths lead
